@@ -24,12 +24,6 @@ EncSpec == EncInit /\ [][EncNext]_evars
 EncFair == EncSpec /\ WF_evars(EncNext)
 EncTerminates == <>(ETerminal(e))
 
-(* the encoder as a function (input without aromatic bonds: the Kekulé step is trivial) *)
-RECURSIVE ERun(_)
-ERun(x) == IF ETerminal(x) \/ EKind(x) = "wait" THEN x
-           ELSE IF EKind(x) = "Kek" THEN ERun(CHOOSE n \in KekChoices(x) : TRUE)
-           ELSE ERun(EStepFn(x))
-
 -----------------------------------------------------------------------------
 (* Round trip, evaluated at accepted terminal states *)
 Dec == DecodeFn(e.outp)                       \* the decoder machine on the emitted symbols
